@@ -297,6 +297,9 @@ func (m *Machine) convert(src, dst types.Type, x value) value {
 				if xv.W == 8 {
 					return Str{[]*term.Term{xv}}
 				}
+				if c, ok := xv.ConstVal(); ok {
+					return m.strConst(string(rune(int32(c))))
+				}
 			}
 			if db.Info()&types.IsFloat != 0 {
 				if v, ok := xv.ConstVal(); ok {
